@@ -156,6 +156,13 @@ fn main() {
 				std::process::exit(2);
 			}
 		},
+		Some("caseseed") => {
+			// verif-sim caseseed <PROPERTY> <case> [base seed]: the seed the driver gives that case
+			let prop = args.get(2).cloned().unwrap_or_default();
+			let case: u64 = args.get(3).and_then(|s| s.parse().ok()).unwrap_or(0);
+			let base: u64 = args.get(4).and_then(|s| s.parse().ok()).unwrap_or(1);
+			println!("{}", sim::case_seed(base, &prop, case));
+		}
 		Some("syncrun") => {
 			// verif-sim syncrun <seed> [mode]: one sync-loop run, verbose
 			let seed: u64 = args.get(2).and_then(|s| s.parse().ok()).unwrap_or(1);
